@@ -151,6 +151,7 @@ class C09(Property):
         "probe.byte-order-mark", "probe.encoding-argument",
         "probe.pvl-new-entry-points",
         "probe.no-separator-before-disallowed-byte",
+        "probe.dump-after-unflushed-text", "probe.label-across-a-block-boundary",
         "probe.pre-advanced-by-next",
         "probe.pre-advanced-by-readline"]
 
@@ -316,6 +317,16 @@ class C09(Property):
                                      newline=knobs.get("newline", ""))
             else:
                 f = bw
+            prefix = b""
+            if knobs.get("prefix"):
+                # the caller has written a header of its own to the stream
+                # and has not flushed it: the label comes after it
+                prefix = knobs["prefix"].encode()
+                try:
+                    f.write(knobs["prefix"] if target == "text-stream"
+                            else prefix)
+                except OSError:
+                    pass
             o = core.guarded(lambda: pvl.dump(m, f, **kw()), 5000)
             flush_err = None
             try:
@@ -347,6 +358,8 @@ class C09(Property):
                      (ro.brief(), o.value))
             return vs
         expect_bytes = text.encode()
+        if raw is not None and knobs.get("prefix"):
+            expect_bytes = knobs["prefix"].encode() + expect_bytes
         full_disk = raw is not None and raw.failed
         if full_disk:
             if out is not None:
@@ -361,7 +374,7 @@ class C09(Property):
             viol("dump-raised", "dump ended in %s, dumps returns %d "
                  "characters" % (o.brief(), len(text)))
             return vs
-        want_ret = len(expect_bytes) if target == "binary-stream" \
+        want_ret = len(text.encode()) if target == "binary-stream" \
             else len(text)
         if o.value != want_ret:
             viol("dump-return-value", "returned %r, len(dumps) is %d" %
@@ -412,6 +425,15 @@ class C09(Property):
         tail_kind = rng.choice(TAILS)
         if tail_kind.startswith("long-run") and rng.random() < 0.6:
             tail_kind = rng.choice(TAILS[:9])
+        if cfg == "default" and rng.random() < 0.03:
+            # a long label in which a multi-byte character lies across a
+            # multiple of the usual I/O block size, image data right behind
+            ch = rng.choice(["\u00e9", "\u20ac", "\U0001d11e"])
+            blk = rng.choice([8192, 8192, 16384])
+            j = rng.randrange(1, len(ch.encode()))
+            label = 'PAD = "' + "x" * (blk - j - 7) + ch + ' end"\n' + label
+            tail_kind = rng.choice(["binary", "high"])
+            out.inc("probe.label-across-a-block-boundary")
         tail = make_tail(rng, tail_kind)
         seps = ["\n", "\r\n", " ", "\t", ";"] + (
             ["\0"] if cfg == "default" else [])
@@ -574,6 +596,10 @@ class C09(Property):
                         out.inc("fault.enospc")
                     if target == "text-stream" and rng.random() < 0.3:
                         knobs["newline"] = "\n"
+                    if rng.random() < 0.25:
+                        knobs["prefix"] = rng.choice(
+                            ["CCSD3ZF0000100000001\r\n", "HDR\n", "x"])
+                        out.inc("probe.dump-after-unflushed-text")
                 elif target == "pathlike" and rng.random() < 0.4:
                     knobs["pathlib"] = False
                 out.violations.extend(self.check_dump(case, target, knobs,
